@@ -49,4 +49,10 @@ CHECKS = {
                      'Derive_n of the row function for smooth operands with coherent jets; zero for independent operands and above the '
                      'polynomial degree; mixed partials commute; ones-trick (per-sample) for every batch size; the shape guard translated '
                      'from safe_diff accepts exactly equal (n,1) pairs; model tied in the kernel to terms regenerated from neurodiffeq.py'),
+    'C19': dict(engine=ENGINE_B, technique='machine-checked proof (Coq): generated terms + validated executable model', ref='DESIGN.md section 7 C19',
+                note='architecture and forward are a hand model (coq/model/Networks.v) tied to the real modules by per-run correspondence inside Coq plus pyfront\'s reading of the constructors; activation and monomial terms are generated; nn.Linear/Sequential acting row by row is a hypothesis (checked numerically); IEEE rounding modelled, not verified',
+                text='Coq theorems for all n_in, n_out, hidden lists, batch sizes, reals and parameters: layer-list spec, legacy-argument equivalence, Resnet skip, row-wise forward (FCNN/Resnet/MonomialNN), monomial entries, sin/swish/APTx formulas on terms regenerated from networks.py, trainable flags'),
+    'C07': dict(engine=ENGINE_A, technique='machine-checked proof (Coq): model regenerated from source by an abstract interpreter + implementation oracle', ref='DESIGN.md section 7 C07',
+                note='extractor = subclass of pyfront Interp in t_C07.py, trusted but validated each run (spied and scripted RNG, interval goals); GeneratorND tabulated at N=2; linspace/logspace/meshgrid/rand/randperm/atan2/acos semantics modelled; see known_findings.d/C07.json for recorded defects',
+                text='Coq theorems about the method table and per-index formulas regenerated from generators.py: table totality, static/fresh classification, in-domain and definedness of all noise-free node formulas, meshgrid(ij)+flatten = row-major tensor product for any number of axes, one LHS point per stratum for every u and permutation, spherical r/phi ranges, theta under the acos-argument hypothesis'),
 }
